@@ -202,6 +202,33 @@ func c05GoVerdict(prog *nd.Prog, typeName, alt string) string {
 	return "IMPL03"
 }
 
+// c05GoMissing: for an annotation spelling whose Go verdict is IMPL03: which methods of the interface does Go consider
+// missing or of the wrong type on T (resp. *T)?  name -> missing
+func c05GoMissing(prog *nd.Prog, typeName, alt string) map[string]bool {
+	alt = strings.TrimSpace(alt)
+	spec := strings.TrimPrefix(alt, "@implements ")
+	ptr := strings.HasPrefix(spec, "&")
+	spec = strings.TrimPrefix(spec, "&")
+	q, name := "", spec
+	if i := strings.Index(spec, "."); i >= 0 {
+		q, name = spec[:i], spec[i+1:]
+	}
+	bound := map[string]string{"ifs": "zzmod/ifs", "yy": "zzmod/ifs", "yaml": "zzmod/yamlv3", "rd": "zzmod/yamlv3", "": "zzmod/u"}
+	iface := prog.Pkg(bound[q]).Scope().Lookup(name).Type().Underlying().(*types.Interface)
+	var t types.Type = prog.Pkg("zzmod/u").Scope().Lookup(typeName).Type()
+	if ptr {
+		t = types.NewPointer(t)
+	}
+	ms := types.NewMethodSet(t)
+	out := map[string]bool{}
+	for i := 0; i < iface.NumMethods(); i++ {
+		m := iface.Method(i)
+		sel := ms.Lookup(m.Pkg(), m.Name())
+		out[m.Name()] = sel == nil || !types.Identical(sel.Type(), m.Type())
+	}
+	return out
+}
+
 // ZZC05Zoo: @implements annotations (20 spellings: value/pointer contract, unqualified, qualified by package name, by
 // explicit alias, by a name that differs from the path's last element, unknown package/interface, non-interface) on seven
 // types whose method sets exercise value/pointer receivers, variadic vs slice, pointer depth, alias-typed and named
@@ -219,7 +246,12 @@ func ZZC05Zoo() {
 		holes = append(holes, nd.Hole{Name: h, Value: v})
 		nonPlain += nd.IteInt(nd.HasPrefix(v, " plain"), 0, 1)
 	}
-	nd.Assume(nonPlain <= 1) // stated bound: one annotated type at a time (7 types x 20 spellings)
+	nd.Assume(nonPlain <= 1) // stated bound: one annotated type at a time
+	// one path per (type, spelling): the oracle below calls go/types on concrete names
+	for i, tn := range typeNames {
+		vals[tn] = nd.PinStr(vals[tn])
+		holes[i].Value = vals[tn]
+	}
 	files := []nd.File{{Pkg: "zzmod/yamlv3", Name: "y.go", Src: c05SrcYaml}, {Pkg: "zzmod/ifs", Name: "i.go", Src: c05SrcIfs}, {Pkg: "zzmod/u", Name: "u.go", Src: c05SrcU}, {Pkg: "zzmod/u", Name: "u2.go", Src: c05SrcU2}}
 	prog := nd.LoadProgram(files, holes)
 	res := Analyze(prog, config.Default(), "zzmod/u", Facts{}, "impl")
@@ -236,6 +268,13 @@ func ZZC05Zoo() {
 	}
 	// known finding: a qualifier equal to the last element of an import PATH (not a bound name) is accepted
 	nd.Known("C05/qualifier-path-element-fallback", fallback)
+	// Go's verdict for every (type, spelling), computed once
+	verdict := map[string]string{}
+	for _, tn := range typeNames {
+		for _, alt := range c05Alts {
+			verdict[tn+"|"+alt] = c05GoVerdict(prog, tn, alt)
+		}
+	}
 	var exp []Expect
 	for i, tn := range typeNames {
 		file, fsrc := "/zz/zzmod/u/u.go", c05SrcU
@@ -247,7 +286,7 @@ func ZZC05Zoo() {
 		for _, code := range []string{"IMPL01", "IMPL02", "IMPL03"} {
 			cond := false
 			for _, alt := range c05Alts {
-				if c05GoVerdict(prog, tn, alt) == code {
+				if verdict[tn+"|"+alt] == code {
 					padded := alt
 					for len(padded) < width {
 						padded += " "
@@ -259,4 +298,32 @@ func ZZC05Zoo() {
 		}
 	}
 	CheckExact(res.Diags, exp, "C05 verdict agrees with go/types")
+	// the methods listed by IMPL03 are exactly those Go considers missing or of wrong type
+	for _, d := range res.Diags {
+		if d.Code != "IMPL03" {
+			continue
+		}
+		for _, tn := range typeNames {
+			file, fsrc := "/zz/zzmod/u/u.go", c05SrcU
+			if tn == "T9" {
+				file, fsrc = "/zz/zzmod/u/u2.go", c05SrcU2
+			}
+			if d.File != file || d.Line != nd.LineOf(fsrc, "type "+tn+" struct") {
+				continue
+			}
+			for _, alt := range c05Alts {
+				if verdict[tn+"|"+alt] != "IMPL03" {
+					continue
+				}
+				padded := alt
+				for len(padded) < width {
+					padded += " "
+				}
+				for name, missing := range c05GoMissing(prog, tn, alt) {
+					listed := strings.Contains(d.Msg, "\n  "+name+"(")
+					nd.Assert(nd.Implies(vals[tn] == padded, listed == missing), "IMPL03 lists exactly the methods Go considers missing or of wrong type")
+				}
+			}
+		}
+	}
 }
